@@ -23,7 +23,7 @@ class Writer:
         self.out.write(b"%d 0 obj" % num + self.eol + ser(value) + self.eol + b"endobj" + self.eol)
         return off
 
-    def revision(self, objs, root, form="table", pack=(), w=(1, 2, 1), info=None, compress=False):
+    def revision(self, objs, root, form="table", pack=(), w=(1, 2, 1), info=None, compress=False, extra_trailer=None):
         """objs: {num: value} defined in this revision; pack: object numbers stored in an object stream
         (only with form 'stream' or 'hybrid'); returns nothing, appends to the file."""
         entries = {}       # num -> (type, f2, f3)
@@ -54,6 +54,8 @@ class Writer:
             trailer["Info"] = Ref(info)
         if self.prev is not None:
             trailer["Prev"] = self.prev
+        if extra_trailer:
+            trailer.update(extra_trailer)          # e.g. /Encrypt and /ID
         if form == "table":
             self.size = max(self.size, max(entries) + 1)
             trailer["Size"] = self.size
